@@ -11,7 +11,7 @@ import CifModel.Lemmas.ParseCBFuel
   Property C15, duplicates under ARBITRARY handler programs (model `parseCBD`, Model/ParseCBDup.lean: the DUP_* diagnostics with an
   accepting error callback).
 
-    * C15_dup_structural_any — for EVERY well-formed document (block codes, frame codes, scalar names and loop-header names may
+    * C15_dup_structural_any — inside the model's domain (`hdom`: no loop header loses ALL its names), for EVERY well-formed document (block codes, frame codes, scalar names and loop-header names may
       repeat in any way; no distinctness hypothesis), EVERY handler program (skips, END, error codes) and both modes: what the parse
       of `tokensOf d` returns, logs and stores is what the structural interpreter `xDocD` returns, logs and stores — the handler steps
       of parser.c and its duplicate checks applied to the document tree, threading the scanner state and the content each container
@@ -25,8 +25,9 @@ namespace CifModel
 open ParseCB Lemmas.ParseCB Spec.Doc
 open CifModel.Gen.ErrCodes (CIF_DUP_ITEMNAME)
 
-/-- **Duplicates under every program: the parse is the structural interpreter.** -/
-theorem C15_dup_structural_any (p : Prog) (norm : Str → Str) (storing : Bool) (d : Doc) (hw : wfDoc d = true) :
+/-- helper (not a property statement): the token-level model of a well-formed document is the structural interpreter, with no
+    domain restriction — outside the domain of `C15_dup_structural_any` this is a fact about the MODEL only -/
+theorem parseCBD_is_xDocD (p : Prog) (norm : Str → Str) (storing : Bool) (d : Doc) (hw : wfDoc d = true) :
     parseCBD p norm storing (tokensOf d)
       = ((xDocD p norm storing d (St.init [])).2.1.log.reverse, (xDocD p norm storing d (St.init [])).1,
          (xDocD p norm storing d (St.init [])).2.2) := by
@@ -34,29 +35,53 @@ theorem C15_dup_structural_any (p : Prog) (norm : Str → Str) (storing : Bool) 
   unfold parseCBD
   rw [h1, h2, h3]
 
+/-- **Duplicates under every program: the parse is the structural interpreter.**
+    DOMAIN (review rA, A.8 — now in the statement): `hdom`, the parse does not answer `MALFORMED` (1000).  On a well-formed document the
+    model answers 1000 exactly when a handler answers 1000 itself or a loop header met during the parse loses ALL its names to the
+    duplicate check (`data_b _a 1 loop_ _A 2`): there parser.c carries on (parse_loop 1391-1430: `name_count` counts the dropped names
+    too; loop_start with an empty name list; `cif_container_create_loop` answers CIF_NULL_LOOP, "tolerable": no loop is created; every
+    packet gets packet_start / packet_end with an empty packet, its values are parsed without item handler; loop_end with a NULL
+    loop) while the model stops — the model is NOT the C's there and the correspondence generator does not produce such documents.
+    `hdom` is decidable (an integer inequality on the model's output) and is the same hypothesis as in
+    `C15_dup_stop_semantics_store`. -/
+theorem C15_dup_structural_any (p : Prog) (norm : Str → Str) (storing : Bool) (d : Doc) (hw : wfDoc d = true)
+    (hdom : (parseCBD p norm storing (tokensOf d)).2.1 ≠ MALFORMED) :
+    parseCBD p norm storing (tokensOf d)
+      = ((xDocD p norm storing d (St.init [])).2.1.log.reverse, (xDocD p norm storing d (St.init [])).1,
+         (xDocD p norm storing d (St.init [])).2.2) :=
+  parseCBD_is_xDocD p norm storing d hw
+
 /-- **The model the correspondence run executes is the model of the theorems.**  The `pcb` driver runs `parseCBR` (Model/ParseCBRec.lean:
     `parseCBD` plus the recovery paths for truncated packets, empty / null loops, missing and unexpected values).  On the token sequence
     of every WELL-FORMED document — with any duplicates, for every handler program, in both modes — no recovery path is taken:
     `parseCBR = parseCBD` (both are the structural interpreter `xDocD`). -/
-theorem C15_rec_is_dup_on_wellformed (p : Prog) (norm : Str → Str) (storing : Bool) (d : Doc) (hw : wfDoc d = true) :
+theorem parseCBR_is_parseCBD (p : Prog) (norm : Str → Str) (storing : Bool) (d : Doc) (hw : wfDoc d = true) :
     parseCBR p norm storing (tokensOf d) = parseCBD p norm storing (tokensOf d) := by
   obtain ⟨h1, h2, h3⟩ := docR_x p norm storing d (fuelFor (tokensOf d)) hw (fuelFor_enough d)
-  rw [C15_dup_structural_any p norm storing d hw]
+  rw [parseCBD_is_xDocD p norm storing d hw]
   unfold parseCBR
   rw [h1, h2, h3]
+
+/-- the statement, with the domain of the model in it (`hdom`: see `C15_dup_structural_any`; where a loop header loses all its names
+    both models answer 1000 and neither is the C's run) -/
+theorem C15_rec_is_dup_on_wellformed (p : Prog) (norm : Str → Str) (storing : Bool) (d : Doc) (hw : wfDoc d = true)
+    (hdom : (parseCBD p norm storing (tokensOf d)).2.1 ≠ MALFORMED) :
+    parseCBR p norm storing (tokensOf d) = parseCBD p norm storing (tokensOf d) :=
+  parseCBR_is_parseCBD p norm storing d hw
 
 /-- … and with ANY layout in front of the tokens (the requests of the correspondence run carry the layout of the rendered text): the
     result, the stored CIF and the callbacks other than whitespace callbacks of `parseCBR` on the laid-out tokens are those of
     `parseCBD` on `tokensOf d` — the object of `C15_dup_structural_any`, `C15_dup_stop_semantics_store`, `C15_dup_events_sublist` and,
     on duplicate-free documents, of every theorem about `parseCB` -/
 theorem C15_rec_is_dup_on_wellformed_layout (p : Prog) (norm : Str → Str) (storing : Bool) (d : Doc) (hw : wfDoc d = true)
+    (hdom : (parseCBD p norm storing (tokensOf d)).2.1 ≠ MALFORMED)
     (toks : List Tok) (h : SkelL (tokensOf d) toks) :
     (parseCBR p norm storing toks).2.1 = (parseCBD p norm storing (tokensOf d)).2.1
     ∧ (parseCBR p norm storing toks).2.2 = (parseCBD p norm storing (tokensOf d)).2.2
     ∧ C15_structOf (parseCBR p norm storing toks).1 = C15_structOf (parseCBD p norm storing (tokensOf d)).1 := by
   have hf : fuelFor toks = fuelFor (tokensOf d) := by unfold fuelFor; rw [h.length]
   obtain ⟨a, b, c⟩ := cifR_layout p norm 1 storing (fuelFor (tokensOf d)) h
-  rw [← C15_rec_is_dup_on_wellformed p norm storing d hw]
+  rw [← parseCBR_is_parseCBD p norm storing d hw]
   unfold parseCBR C15_structOf
   rw [hf]
   exact ⟨a, b, c⟩
@@ -99,7 +124,7 @@ theorem C15_dup_is_plain_without_duplicates (p : Prog) (norm : Str → Str) (sto
     parseCBD p norm storing (tokensOf d) = parseCB p storing (tokensOf d) := by
   have hw : wfDoc d = true := wfDocN_wf hwn
   have hd : distinctDoc norm d = true := by simp only [wfDocN, Bool.and_eq_true] at hwn; exact hwn.2
-  rw [C15_dup_structural_any p norm storing d hw, C15_stored_is_structural_any p storing norm d hwn, xDocD_plain p norm storing d _ hw hd]
+  rw [parseCBD_is_xDocD p norm storing d hw, C15_stored_is_structural_any p storing norm d hwn, xDocD_plain p norm storing d _ hw hd]
 
 /-- … for instance the stop semantics of the store, for the model with the diagnostics -/
 theorem C15_dup_stop_semantics_without_duplicates (p : Prog) (norm : Str → Str) (d : Doc) (hwn : wfDocN norm d = true) :
@@ -122,7 +147,7 @@ theorem C15_dup_stop_semantics_store (p : Prog) (norm : Str → Str) (d : Doc) (
     (hdom : (parseCBD p norm true (tokensOf d)).2.1 ≠ MALFORMED) :
     (parseCBD p norm true (tokensOf d)).2.2 = (cDocD p norm d).cif
     ∧ (parseCBD p norm true (tokensOf d)).2.1 = cResultD p (cDocD p norm d) := by
-  rw [C15_dup_structural_any p norm true d hw] at hdom ⊢
+  rw [parseCBD_is_xDocD p norm true d hw] at hdom ⊢
   obtain ⟨h1, h2⟩ := xDocD_c p norm d hw hdom
   exact ⟨h2, h1⟩
 
@@ -132,10 +157,12 @@ theorem C15_dup_stop_semantics_store (p : Prog) (norm : Str → Str) (d : Doc) (
     container carries its first spelling —, the names of a loop handle and the items of packet_end — a loop that lost columns carries
     fewer): what remains of the callbacks of the parse is a sublist of the document's callbacks `docEvents true d`, abstracted the same
     way.  Item and data-name callbacks are compared with their names and values: a program and the duplicate recovery only ever make
-    the parser LEAVE OUT callbacks; nothing is reordered, repeated or invented. -/
-theorem C15_dup_events_sublist (p : Prog) (norm : Str → Str) (d : Doc) (hw : wfDoc d = true) :
+    the parser LEAVE OUT callbacks; nothing is reordered, repeated or invented.  `hdom`: the domain of the model, as in
+    `C15_dup_structural_any` (no loop header loses all its names); storing mode only. -/
+theorem C15_dup_events_sublist (p : Prog) (norm : Str → Str) (d : Doc) (hw : wfDoc d = true)
+    (hdom : (parseCBD p norm true (tokensOf d)).2.1 ≠ MALFORMED) :
     (view (parseCBD p norm true (tokensOf d)).1).Sublist ((docEvents true d).map absEv) := by
-  rw [C15_dup_structural_any p norm true d hw, ← docA_eq d hw]
+  rw [parseCBD_is_xDocD p norm true d hw, ← docA_eq d hw]
   exact xDocD_subA p norm true d
 
 /-- the two descriptions agree where both apply: with all-continue handlers the specification for every program stores `dupDenote` -/
